@@ -13,6 +13,7 @@ def analyse(ctx: CheckContext, p: Program):
     cone = r.pipeline_cone()
     order.check_config_attrs(ctx, p, r, cone if ctx.tier == "quick" else cone)
     order.check_handler_table(ctx, p, r)
+    order.check_division_guards(ctx, p, r, cone)
 
 
 def run(ctx: CheckContext):
@@ -22,6 +23,7 @@ def run(ctx: CheckContext):
     ctx.floor("ATTR", 30)
     ctx.floor("T4", 5)
     ctx.floor("T4-FORM", 6)
+    ctx.floor("DIV-GUARD", 2)
     ctx.assumptions += [
         "decides define-before-use of the target registry, existence of option attributes and exhaustiveness of the zone-type dispatch; "
         "finiteness of numbers, schema validity of the output and temperature envelopes are NOT decided",
@@ -36,5 +38,7 @@ def run(ctx: CheckContext):
     run_control(ctx, "C14/handler-missing", analyse, p.root, m, "    ZoneType.R.value: _get_regional_targets,\n", "", "T4")
     run_control(ctx, "C14/identifier-vs-member", analyse, p.root, m,
                 "            elif z.identifier == ZoneType.S.value:\n                _get_site_targets(z)", "            elif z.identifier == ZoneType.S:\n                _get_site_targets(z)", "T4-FORM")
+    run_control(ctx, "C14/nonstrict-division-guard", analyse, p.root, "OpenPinch/analysis/indirect_integration_entry.py",
+                "            if heat_recovery_limit > 0\n", "            if heat_recovery_limit >= 0\n", "DIV-GUARD")
     run_control(ctx, "C14/config-attr-typo", analyse, p.root, "OpenPinch/analysis/direct_integration_entry.py",
                 "do_assisted_ht_calc=zone_config.DO_ASSITED_HT,", "do_assisted_ht_calc=zone_config.DO_ASSISTED_HT,", "ATTR")
